@@ -103,6 +103,21 @@ Theorem c19_walk_case_sensitive_refuted :
   walk b [(s_Mat_x, [])] s_mat = [] /\ lookup b [(s_Mat_x, [])] (s_mat ++ [47; 120]) = Some (s_Mat_x, []).
 Proof. exact walk_case_sensitive_refuted. Qed.
 
+(** A loop over the container's own directory index ([VPK.fileinfos(folder=...)], which compares the directory names
+    as stored) hides a folder stored with capitals; a loop over the container itself lists case-duplicates that the
+    lookup cannot tell apart.  Both shapes are recognised by the translator and rejected by [walk_ok]. *)
+Theorem c19_walk_prefilter_case_refuted :
+  prefilter_case_sensitive prefilter_vpk = true /\ walk_ok prefilter_vpk = false
+  /\ walk prefilter_vpk [(s_Mat_x, [])] s_mat = []
+  /\ lookup prefilter_vpk [(s_Mat_x, [])] (s_mat ++ [47; 120]) = Some (s_Mat_x, [])
+  /\ walk prefilter_vpk [(s_Mat_x, [])] [] = [(s_Mat_x, [])].
+Proof. exact walk_prefilter_case_refuted. Qed.
+Theorem c19_walk_container_duplicates_refuted :
+  walk_ok container_vpk = false
+  /\ walk container_vpk [(s_Mat_x, [1]); (s_mat ++ [47; 120], [2])] s_mat = [(s_Mat_x, [1]); (s_mat ++ [47; 120], [2])]
+  /\ lookup container_vpk [(s_Mat_x, [1]); (s_mat ++ [47; 120], [2])] s_Mat_x = Some (s_mat ++ [47; 120], [2]).
+Proof. exact walk_container_duplicates_refuted. Qed.
+
 (** The repaired forms satisfy the premises (the theorems above are not vacuous). *)
 Example c19_premises_satisfiable :
   walk_ok fixed_virtual = true /\ backend_keys_ok fixed_virtual = true
@@ -181,3 +196,13 @@ Theorem c19_chain_relpath_case_refuted :
   map fst (chain_walk_repeat RelPath [m] []) = [[46; 46; 47; 109; 97; 116; 47; 120]]
   /\ map fst (chain_walk_repeat RelDropSegs [m] []) = [[120]].
 Proof. exact chain_relpath_case_refuted. Qed.
+
+(** A de-duplication that stores into a dict unconditionally lists each name once but with the File of the *last*
+    member; the visited-set form lists the File the chain's lookup returns. *)
+Theorem c19_chain_walk_overwrite_refuted :
+  let m1 := member_of fixed_zip [([120], [1])] [] in
+  let m2 := member_of fixed_zip [([120], [2])] [] in
+  chain_walk_mode DedupOverwrite RelDropSegs [OFold] [m1; m2] [] = [([120], ([120], [2]))]
+  /\ chain_get [m1; m2] [120] = Some ([120], [1])
+  /\ chain_walk_mode DedupSkip RelDropSegs [OFold] [m1; m2] [] = [([120], ([120], [1]))].
+Proof. exact chain_walk_overwrite_refuted. Qed.
